@@ -1432,3 +1432,165 @@ Proof.
           replace (Z.to_nat (n - num) - List.length e1)%nat with 0%nat by (unfold zlen in Cut; lia). cbn [firstn]. apply app_nil_r. }
         rewrite T2. unfold zlen at 2. cbn [List.length]. rewrite app_nil_r, Z.add_0_r. reflexivity.
 Qed.
+
+(** count-only queries (NULL arrays) *)
+Lemma hl_table_count : forall blk nx blen total refs z, Forall (fun r => r <> 0) refs -> Forall (fun r => r = 0) z ->
+  forall num accum out,
+  hl_table blk (refs ++ z) nx blen total None (num, accum, out) = Some (num + zlen refs, accum, out).
+Proof.
+  intros blk nx blen total refs z Hnz Hz. induction refs as [|r t IH]; intros num accum out.
+  - cbn [app]. unfold zlen. cbn [List.length]. rewrite Z.add_0_r. destruct z as [|z0 zs]; [reflexivity|].
+    cbn [hl_table]. rewrite (Forall_inv Hz). reflexivity.
+  - cbn [app hl_table]. pose proof (Forall_inv Hnz) as Hr. destruct (r =? 0) eqn:E0; [apply Z.eqb_eq in E0; contradiction|].
+    cbn [orb hl_full]. rewrite (IH (Forall_inv_tail Hnz)). unfold zlen. cbn [List.length]. f_equal. f_equal. f_equal. lia.
+Qed.
+
+Lemma hl_tables_count : forall blk blen total pre last z,
+  Forall (fun t => fst t <> 0 /\ slots_ok blk (snd t)) pre -> slots_ok blk last -> Forall (fun r => r = 0) z ->
+  forall num accum out,
+  hl_tables blk (map (fun t => (fst t, map fst (snd t))) pre ++ [(0, map fst last ++ z)]) blen total None (num, accum, out)
+  = Some (num + zlen (List.concat (map (fun t => map snd (snd t)) pre) ++ map snd last), accum, out).
+Proof.
+  intros blk blen total pre last z Hpre Hlast Hz. induction pre as [|[nx s] pre IH]; intros num accum out.
+  - cbn [map app List.concat hl_tables hl_full]. destruct (slots_F2 blk last Hlast) as [A _].
+    rewrite (hl_table_count blk 0 blen total _ z A Hz). cbn [Z.eqb]. unfold zlen. rewrite !map_length. reflexivity.
+  - cbn [map app List.concat hl_tables hl_full fst snd]. pose proof (Forall_inv Hpre) as [Hnx Hs]. cbn [fst snd] in Hnx, Hs.
+    destruct (slots_F2 blk s Hs) as [A _].
+    rewrite <- (app_nil_r (map fst s)). rewrite (hl_table_count blk nx blen total _ [] A (Forall_nil _)).
+    destruct (nx =? 0) eqn:En; [apply Z.eqb_eq in En; contradiction|].
+    rewrite (IH (Forall_inv_tail Hpre)). rewrite <- app_assoc, !zlen_app. unfold zlen. rewrite !map_length. f_equal. f_equal. f_equal. lia.
+Qed.
+
+(** the specification's side: nominal block lengths and the position of the element's end *)
+Definition lens_ok (isf : bool) (E : list (Z * Z)) (first blen : Z) : Prop :=
+  match E with
+  | [] => True
+  | e :: t => snd e = (if isf then first else blen) /\ Forall (fun e => snd e = blen) t
+  end.
+
+(** the element ends inside its last data block (a first block of another size, made from existing data, is full) *)
+Fixpoint total_ok (E : list (Z * Z)) (st blen total : Z) : Prop :=
+  match E with
+  | [] => True
+  | e :: t => match t with
+              | [] => st < total <= st + snd e /\ (snd e <> blen -> total = st + snd e)
+              | _ => total_ok t (st + snd e) blen total
+              end
+  end.
+
+Lemma total_ok_start : forall E st blen total first isf, 0 < blen -> 0 < first ->
+  E <> [] -> lens_ok isf E first blen -> total_ok E st blen total -> st < total.
+Proof.
+  induction E as [|e t IH]; intros st blen total first isf Hb Hf Hne Hl Ht; [congruence|].
+  cbn [total_ok] in Ht. destruct t as [|e2 t'].
+  - lia.
+  - destruct Hl as [L1 L2]. assert (0 < snd e) by (rewrite L1; destruct isf; assumption).
+    assert (st + snd e < total); [|lia].
+    apply (IH (st + snd e) blen total first false Hb Hf); [discriminate | | exact Ht].
+    unfold lens_ok. split; [exact (Forall_inv L2) | exact (Forall_inv_tail L2)].
+Qed.
+
+Lemma slots_zeros : forall blk total z st first blen isf, Forall (fun r => r = 0) z ->
+  extents_of_slots blk total (block_slots z st first blen isf) = Some [].
+Proof.
+  induction z as [|r t IH]; intros st first blen isf Hz; [reflexivity|].
+  cbn [block_slots extents_of_slots]. rewrite (Forall_inv Hz). cbn [Z.eqb orb]. apply IH. exact (Forall_inv_tail Hz).
+Qed.
+
+Lemma spec_extents_layout : forall blk total first blen S z, 0 < blen -> 0 < first ->
+  slots_ok blk S -> Forall (fun r => r = 0) z ->
+  forall st isf, lens_ok isf (map snd S) first blen -> total_ok (map snd S) st blen total ->
+  extents_of_slots blk total (block_slots (map fst S ++ z) st first blen isf) = Some (trim (map snd S) st blen total).
+Proof.
+  intros blk total first blen S z Hb Hf Hs Hz. induction S as [|[r [o len]] S' IH]; intros st isf Hl Ht.
+  - cbn [map app trim]. apply slots_zeros. exact Hz.
+  - pose proof (Forall_inv Hs) as [Hr Hk]. cbn [fst snd] in Hr, Hk.
+    assert (st < total) as Hst by (apply (total_ok_start (map snd ((r, (o, len)) :: S')) st blen total first isf Hb Hf); [discriminate | exact Hl | exact Ht]).
+    cbn [map app fst snd block_slots extents_of_slots].
+    destruct (r =? 0) eqn:E0; [apply Z.eqb_eq in E0; contradiction|].
+    destruct (st <? total) eqn:E1; [|apply Z.ltb_ge in E1; lia]. cbn [orb negb]. rewrite Hk.
+    destruct Hl as [L1 L2]. cbn [snd] in L1.
+    destruct S' as [|[r2 [o2 len2]] S''].
+    + cbn [map app]. rewrite slots_zeros by assumption. cbn [trim]. cbn [map total_ok snd] in Ht.
+      destruct Ht as [T1 T2]. f_equal. f_equal. f_equal. rewrite <- L1.
+      destruct (len =? blen) eqn:E; [lia|]. apply Z.eqb_neq in E. specialize (T2 E). lia.
+    + cbn [map total_ok snd] in Ht.
+      rewrite (IH (Forall_inv_tail Hs) (st + (if isf then first else blen)) false).
+      * cbn [map snd trim]. rewrite <- L1. f_equal. f_equal. f_equal.
+        assert (st + len < total); [|lia].
+        apply (total_ok_start (map snd ((r2, (o2, len2)) :: S'')) (st + len) blen total first false Hb Hf); [discriminate| |exact Ht].
+        cbn [map snd] in L2 |- *. unfold lens_ok. split; [exact (Forall_inv L2) | exact (Forall_inv_tail L2)].
+      * cbn [map snd] in L2 |- *. unfold lens_ok. split; [exact (Forall_inv L2) | exact (Forall_inv_tail L2)].
+      * rewrite <- L1. exact Ht.
+Qed.
+
+Definition lo_slots (l : layout) : list (Z * (Z * Z)) := List.concat (map snd (lo_pre l)) ++ lo_last l.
+
+Lemma lo_refs_eq : forall l, lo_refs l = map fst (lo_slots l) ++ lo_zeros l.
+Proof.
+  intro l. unfold lo_refs, lo_tables, lo_slots. rewrite map_app, concat_app. cbn [map List.concat snd].
+  rewrite app_nil_r, map_app, <- app_assoc. f_equal.
+  induction (lo_pre l) as [|[nx s] t IH]; [reflexivity|]. cbn [map List.concat snd fst]. rewrite map_app, IH. reflexivity.
+Qed.
+
+Lemma lo_ents_eq : forall l, lo_ents l = map snd (lo_slots l).
+Proof.
+  intro l. unfold lo_ents, lo_pre_ents, lo_slots. rewrite map_app. f_equal.
+  induction (lo_pre l) as [|[nx s] t IH]; [reflexivity|]. cbn [map List.concat snd]. rewrite map_app, IH. reflexivity.
+Qed.
+
+Lemma lo_slots_ok : forall blk l, layout_ok blk l -> slots_ok blk (lo_slots l).
+Proof.
+  intros blk l (A & B & _). unfold lo_slots, slots_ok. apply Forall_app. split; [|exact B].
+  induction (lo_pre l) as [|[nx s] t IH]; [constructor|]. cbn [map List.concat snd]. apply Forall_app.
+  pose proof (Forall_inv A) as [_ Hs]. split; [exact Hs | apply IH; exact (Forall_inv_tail A)].
+Qed.
+
+Lemma trim_app : forall a b acc blen total, b <> [] ->
+  trim (a ++ b) acc blen total = a ++ trim b (acc + sumlen a) blen total.
+Proof.
+  induction a as [|[o len] a IH]; intros b acc blen total Hb.
+  - cbn [app sumlen]. rewrite Z.add_0_r. reflexivity.
+  - cbn [app trim sumlen snd]. destruct (a ++ b) eqn:E.
+    + apply app_eq_nil in E. destruct E; contradiction.
+    + rewrite <- E, IH by assumption. replace (acc + len + sumlen a) with (acc + (len + sumlen a)) by lia. reflexivity.
+Qed.
+
+(** the last table of an element holds at least one data block unless the element has no block at all *)
+Definition last_table_used (l : layout) : Prop := lo_last l <> [] \/ lo_pre l = [].
+
+Theorem hl_getdatainfo_exact : forall blk l blen total first cap,
+  0 < blen -> 0 < first -> layout_ok blk l -> last_table_used l ->
+  lens_ok true (lo_ents l) first blen -> total_ok (lo_ents l) 0 blen total ->
+  cap_ok cap -> cap <> Some 0 ->
+  exists exts,
+    extents_of_slots blk total (block_slots (lo_refs l) 0 first blen true) = Some exts /\
+    hl_getdatainfo blk (lo_tables l) blen total cap = Some (datainfo_answer exts cap).
+Proof.
+  intros blk l blen total first cap Hb Hf Hlo Hused Hl Ht Hc Hc0.
+  exists (trim (lo_ents l) 0 blen total). split.
+  - rewrite lo_refs_eq, lo_ents_eq. apply spec_extents_layout; try assumption.
+    + apply lo_slots_ok; assumption.
+    + destruct Hlo as (_ & _ & Z0). exact Z0.
+    + rewrite <- lo_ents_eq. exact Hl.
+    + rewrite <- lo_ents_eq. exact Ht.
+  - destruct Hlo as (A & B & C). unfold hl_getdatainfo, lo_tables.
+    assert (forall X (a : list X) b, a ++ [b] <> []) as NE by (intros X a b; destruct a; discriminate).
+    assert (trim (lo_ents l) 0 blen total =
+            lo_pre_ents l ++ trim (map snd (lo_last l)) (sumlen (lo_pre_ents l)) blen total) as TR.
+    { unfold lo_ents. destruct Hused as [U|U].
+      - rewrite trim_app by (destruct (lo_last l); [contradiction|discriminate]). reflexivity.
+      - unfold lo_pre_ents. rewrite U. reflexivity. }
+    destruct cap as [n|].
+    + destruct n as [|p|p]; [congruence| |unfold cap_ok in Hc; lia].
+      destruct (map (fun t => (fst t, map fst (snd t))) (lo_pre l) ++ [(0, map fst (lo_last l) ++ lo_zeros l)]) eqn:T;
+        [exfalso; eapply NE; exact T|]. rewrite <- T.
+      destruct (hl_tables_layout blk blen total (Z.pos p) (lo_pre l) (lo_last l) (lo_zeros l) A B C 0 0 [] Hc) as [acc' E].
+      cbn zeta in E. cbn [app] in E. rewrite !Z.add_0_l in E. fold (lo_pre_ents l) in E. rewrite <- TR in E.
+      rewrite E. unfold datainfo_answer, take. rewrite Z.sub_0_r. reflexivity.
+    + destruct (map (fun t => (fst t, map fst (snd t))) (lo_pre l) ++ [(0, map fst (lo_last l) ++ lo_zeros l)]) eqn:T;
+        [exfalso; eapply NE; exact T|]. rewrite <- T.
+      rewrite (hl_tables_count blk blen total (lo_pre l) (lo_last l) (lo_zeros l) A B C 0 0 []).
+      unfold datainfo_answer. f_equal. f_equal. rewrite Z.add_0_l. unfold zlen. rewrite trim_length.
+      unfold lo_ents, lo_pre_ents. reflexivity.
+Qed.
